@@ -26,7 +26,6 @@ import "compress/gzip"
 import "encoding/json"
 import "io"
 import "os"
-import "strconv"
 import "strings"
 import "unsafe"
 /* -------------------------------------------------------------------------- */
@@ -574,11 +573,11 @@ func (m *DenseInt16Matrix) Import(filename string) error {
       return fmt.Errorf("invalid table")
     }
     for i := 0; i < len(fields); i++ {
-      value, err := strconv.ParseFloat(fields[i], 64)
+      value, err := parse_int16(fields[i])
       if err != nil {
         return fmt.Errorf("invalid table")
       }
-      values = append(values, int16(value))
+      values = append(values, value)
     }
     rows++
   }
